@@ -19,7 +19,8 @@ RULE = ("generated call DAGs (as in C10) whose edges may attach their own contex
         "changed may run), on filesystem / filesystem+cache / memory stores; prevent_further_calls scenarios "
         "use nodes of their own; non-trivial = distinct trees with >=1 inheriting edge below a context and >=1 "
         "overriding edge"
-        '; rounds 7-9: prevented-parent scenarios go through every nested-call form, also calls attaching context arguments of their own')
+        '; rounds 7-9: prevented-parent scenarios go through every nested-call form, also calls attaching context arguments of their own'
+        '; rounds 10-11: prevented calls that also attach context arguments, before or after the prevention')
 ASSUMPTIONS = ["an edge that attaches a context (even an empty one) replaces the inherited context entirely",
                "prevented-call scenarios use argument values of their own (the outer call's outcome is memoized "
                "under the ordinary key; not judged by this property)"]
